@@ -18,6 +18,7 @@ package ocifilter
 
 import (
 	"context"
+	"errors"
 	"fmt"
 
 	"cuelabs.dev/go/oci/ociregistry"
@@ -47,6 +48,10 @@ func (r immutable) PushManifest(ctx context.Context, repo string, tag string, co
 			return desc, nil
 		}
 		return ociregistry.Descriptor{}, fmt.Errorf("this store is immutable: %w", ociregistry.ErrDenied)
+	} else if !errors.Is(err, ociregistry.ErrManifestUnknown) && !errors.Is(err, ociregistry.ErrNameUnknown) {
+		// We can't tell whether the tag exists, so we can't
+		// tell whether pushing it would change it.
+		return ociregistry.Descriptor{}, fmt.Errorf("cannot determine whether tag exists: %w", err)
 	}
 	desc, err := r.Interface.PushManifest(ctx, repo, tag, contents, mediaType)
 	if err != nil {
